@@ -57,7 +57,7 @@ static const std::vector<FileSeed>& file_seeds(const std::string& fmt) {
 
 // ---------------------------------------------------------------- generation
 
-static MVal gen_options(Rng& r, const std::string& fmt) {
+static MVal gen_options(Rng& r, const std::string& fmt, const std::string& profile) {
     MVal o = MVal::obj();
     if (fmt == "json") {
         if (r.chance(1, 4)) o.set("comments", MVal::boolean(true));
@@ -75,6 +75,24 @@ static MVal gen_options(Rng& r, const std::string& fmt) {
         if (r.chance(1, 5)) o.set("null_empty", MVal::boolean(true));
         if (r.chance(1, 5)) o.set("keep_empty_lines", MVal::boolean(true));
         if (r.chance(1, 6)) o.set("lossless", MVal::boolean(true));
+        // Only flat type lists are generated.  The repeat ('*') and array ('[..]') forms of column_types are known to be broken in the
+        // pinned tree (F31, F32: container events lost by the cursor, unbalanced events with unquoted_empty_value_is_null); they are
+        // exercised by two pinned plans (see pinned_plan) so that the findings stay visible, and not explored further because a new
+        // violation there could not be told apart from the known ones.
+        static const char* ctypes[] = {"integer,string,float,boolean", "boolean,float", "string,string,string,string,string,string", "boolean,integer,float,string", "float,float,float", "integer", "string,integer"};
+        if (r.chance(1, 4)) o.set("column_types", MVal::str(r.pick(ctypes)));
+        // assume_header + n_rows + column_names is broken from the first event (F34, pinned plan below), so it is not generated
+        if (r.chance(1, 6) && !(o.getb("header", true) && o.geti("mapping", 0) == 1)) o.set("column_names", MVal::str(r.coin() ? "a,b,c" : "x, y"));
+        if (r.chance(1, 6)) o.set("column_defaults", MVal::str(r.coin() ? "0,x,1.5" : ",,,1"));
+        if (r.chance(1, 6)) o.set("header_lines", MVal::uinteger(r.below(3)));
+        if (r.chance(1, 8)) { static const char delims[] = {';', '|', '\t', ' '}; o.set("delim", MVal::uinteger((uint64_t)(unsigned char)r.pick(delims))); }
+        // max_lines makes the parser stop without closing the open containers, which the repository's own test
+        // (test_csv_parser_reinitialization) pins; every front end reports that stop differently, so it is generated for the c05
+        // profile only (no crash, no foreign exception, no leak), not for the event comparison of c03
+        if (profile == "c05" && r.chance(1, 8)) o.set("max_lines", MVal::uinteger(1 + r.below(4)));
+        if (r.chance(1, 8)) o.set("ignore_empty_values", MVal::boolean(true));
+        if (r.chance(1, 10)) o.set("quote_char", MVal::uinteger('\''));
+        if (r.chance(1, 10)) o.set("trim_in_quotes", MVal::boolean(true));
     } else {
         if (r.chance(1, 8)) o.set("max_depth", MVal::integer((int64_t)r.below(6)));
         if (fmt == "ubjson" && r.chance(1, 6)) o.set("max_items", MVal::integer((int64_t)r.below(8)));
@@ -103,6 +121,22 @@ MVal generate(const std::string& profile, uint64_t seed, uint64_t idx) {
     if (profile == "c05" && idx % 8 == 7) fmt = "toon";      // C05 names TOON among the decoders (reader and decoder only: there is no TOON cursor)
     plan.set("format", MVal::str(fmt));
     const FormatApi& api = api_of(fmt);
+    if (fmt == "csv" && (idx / (sizeof formats / sizeof formats[0])) % 64 == 6 && profile == "c03") {
+        MVal o = MVal::obj();
+        plan.set("input_hex", MVal::str(to_hex("a,b\n1,2\n"))); o.set("header", MVal::boolean(true)); o.set("mapping", MVal::integer(1)); o.set("column_names", MVal::str("x,y"));
+        plan.set("src", MVal::str("pinned:csv-header-names-rows")); plan.set("options", o); plan.set("knob", MVal::uinteger(0));
+        MVal dl = MVal::arr(); MVal sw = MVal::obj(); sw.set("kind", MVal::str("sweep")); dl.push(sw); plan.set("deliveries", dl);
+        return plan;
+    }
+    if (fmt == "csv" && (idx / (sizeof formats / sizeof formats[0])) % 64 == 5 && profile != "c10") {
+        // pinned reproductions of open findings in the CSV column_types repeat / array machinery (documented option values, clean input)
+        MVal o = MVal::obj();
+        if (profile == "c03") { plan.set("input_hex", MVal::str(to_hex("h\n6\n"))); o.set("header", MVal::boolean(true)); o.set("mapping", MVal::integer(1)); o.set("column_types", MVal::str("[integer,string]*")); }
+        else { plan.set("input_hex", MVal::str(to_hex("a,,1\n"))); o.set("header", MVal::boolean(false)); o.set("mapping", MVal::integer(1)); o.set("null_empty", MVal::boolean(true)); o.set("column_types", MVal::str("string,[float]*")); }
+        plan.set("src", MVal::str("pinned:csv-column-types")); plan.set("options", o); plan.set("knob", MVal::uinteger(0));
+        MVal dl = MVal::arr(); MVal sw = MVal::obj(); sw.set("kind", MVal::str("sweep")); dl.push(sw); plan.set("deliveries", dl);
+        return plan;
+    }
     if (profile == "c10") {
         // claim-and-starve inputs and limit sweeps are enumerated by kind: see execute()
         uint64_t k = idx / 7;
@@ -128,7 +162,7 @@ MVal generate(const std::string& profile, uint64_t seed, uint64_t idx) {
         plan.set("doc", gd);
         plan.set("variant", MVal::uinteger(r.next() >> 8));
     }
-    plan.set("options", gen_options(r, fmt));
+    plan.set("options", gen_options(r, fmt, profile));
     plan.set("knob", MVal::uinteger(r.below(12)));
     bool faulty = profile == "c05" ? true : r.chance(2, 5);     // c03 also compares corrupted / truncated inputs
     if (faulty) { plan.set("faults", gen_faults(r, profile == "c05" ? 4 : 2)); plan.set("packet", MVal::uinteger(1 + r.below(16))); }
@@ -419,6 +453,7 @@ static Result exec_c03_c05(MVal& plan, Stats& st) {
             if (!(failed.events.empty() && okone.events.empty())) R.fail(std::string("crossmode-status.") + m1, std::string(m1) + (sa ? " succeeds" : " fails (" + a.error + ")") + " but " + m2 + (sb ? " succeeds" : " fails (" + b.error + ")") + "; events " + shorten(a.events, 120) + " vs " + shorten(b.events, 120), m2, d);
         }
         st.inc("crossmode_comparisons");
+        if (!R.res.ok) { MVal ms = MVal::arr(); ms.push(MVal::str(m1)); ms.push(MVal::str(m2)); plan.set("modes", ms); }    // a replay needs both sides
     };
     // CBOR multi-dimensional arrays (tags 40 / 1040) are surfaced nested by the reader and flat (with is_multi_dim())
     // by the cursor; the repository's own tests pin that difference, so such inputs are left out of the
